@@ -9,9 +9,26 @@ KINDS = {0: 'begin_array', 1: 'begin_array_len', 3: 'begin_object', 4: 'begin_ob
 def jobs(tier):
     J = []
     for f, name in enumerate(FMTS):
+        if name == 'pjson' and tier != 'thorough':
+            continue   # the pretty encoder needs its real constructor (string_view members): > 10 min per job, thorough tier only
         for k, kn in KINDS.items():
             for c in (0, 1):
-                J.append(dict(id='limit_%s_%s_%s' % (name, kn, 'close' if c else 'open'), harness='h_limit', props=['C10'], unwind=10, defs=dict(FMT=f, LIMIT=1, KIND=k, CLOSE=c), timeout=1200 if name == 'pjson' else 300, mem_gb=6 if name == 'pjson' else 4,
+                J.append(dict(id='limit_%s_%s_%s' % (name, kn, 'close' if c else 'open'), harness='h_limit', props=['C10'], unwind=10, defs=dict(FMT=f, LIMIT=1, KIND=k, CLOSE=c), timeout=2400 if name == 'pjson' else 300, mem_gb=6 if name == 'pjson' else 4,
                               desc='%s encoder visit_%s: refused with max_nesting_depth_exceeded iff depth+1 > max_nesting_depth, else depth+1%s' % (name, kn, '; visit_end_* restores the depth' if c else ''),
                               bound='any depth 0..limit, any limit (int), any declared length' + (' (0 when closed)' if c else '')))
+    for f, name in ((2, 'cbor'), (3, 'msgpack'), (4, 'ubjson')):
+        for o in (0, 1):
+            J.append(dict(id='head_%s_%s' % (name, 'object' if o else 'array'), harness='h_head', props=['C08', 'C06'], unwind=10, defs=dict(FMT=f, OBJ=o), timeout=300, mem_gb=4,
+                          desc='%s encoder begin_%s(length): error, or a well-formed head whose decoded length equals the declared length' % (name, 'object' if o else 'array'), bound='any declared length (uint64)'))
+    for f, name in ((2, 'cbor'), (3, 'msgpack'), (4, 'ubjson')):
+        for sk, skn in ((7, 'uint64'), (8, 'int64'), (9, 'null'), (10, 'bool')):
+            if name == 'ubjson' and skn == 'uint64':   # values above INT64_MAX are written as decimal text (H): windows instead of the full range
+                for wn, lo, hi in (('le_i64max', '0ULL', '9223372036854775807ULL'), ('above_i64max', '9223372036854775808ULL', '9223372036854775907ULL'), ('top', '18446744073709551516ULL', '18446744073709551615ULL')):
+                    J.append(dict(id='scalar_ubjson_uint64_' + wn, harness='h_scalar', props=['C06', 'C08'], unwind=22, defs=dict(FMT=f, SK=sk, VLO=lo, VHI=hi), timeout=600, mem_gb=4,
+                                  desc='ubjson encoder visit_uint64: exactly one well-formed item that reads back to the same value', bound='values in [%s, %s]' % (lo, hi)))
+                continue
+            J.append(dict(id='scalar_%s_%s' % (name, skn), harness='h_scalar', props=['C06', 'C08'], unwind=22, defs=dict(FMT=f, SK=sk), timeout=300, mem_gb=4,
+                          desc='%s encoder visit_%s: the bytes are exactly one well-formed item that an independent reference decoder reads back to the same value (or the encoder refuses)' % (name, skn), bound='all 2^64 values' if sk in (7, 8) else 'all values'))
+    J.append(dict(id='cjson_seq', harness='h_cjson_seq', props=['C08', 'C01'], unwind=26, defs=dict(FMT=0), timeout=600, mem_gb=6,
+                  desc='compact JSON encoder on [v0,v1] and {"ab":v}: output text equals the independent RFC 8259 rendering (separators, brackets, literals, integers)', bound='v in null/bool/uint<1000/|int|<1000/2-char printable string'))
     return J
